@@ -2,7 +2,8 @@
    bit 1: heap model (Model.Pipeline.mexec) = implementation
    bit 2: specification of the history (Spec.AbsPipeline.aexec: values only, concatenation,
           (priority, name) order, stage order) accepts the implementation's observation
-   bit 4: the last conversion ran a pipeline that owned all its objects (premise of C14_behaviour)
+   bit 4: every conversion of the history ran a pipeline that owned all its objects (premise of
+          C14_behaviour_partial / C14_history_partial)
    bit 8: the history composes at least two non-empty pipelines *)
 From Coq Require Import NArith ZArith List Bool.
 From PS Require Import Base.Chars Base.Outcome Spec.AbsPipeline Model.Pipeline Run.Bits.
